@@ -4,6 +4,7 @@
 //!  tree_get   {target, path}                -> {r:"some", v} | {r:"none"}
 //!  parse      {text, format}                -> {r:"ok", v} | {r:"err", kind}
 //!  project    {value}                       -> {r:"ok", v} | {r:"err", kind, stage}
+//!  default    {}                           -> {r:"ok", v}   (to_value(Settings::new()))
 //!  settings   {steps:[{k, ...}]}            -> {r:"ok", steps:[{res, kind?, before, after, get?}]}
 use c2pa::settings::{
     verif_get_at_path, verif_merge_json_depth, verif_parse_to_value, verif_set_at_path, verif_validate, Settings,
@@ -49,6 +50,7 @@ pub fn run(case: &Value) -> Value {
                 Ok(()) => json!({"r": "ok", "v": sval(&s)}),
             },
         },
+        "default" => json!({"r": "ok", "v": sval(&Settings::new())}),
         "settings" => {
             let mut cur = Settings::new();
             let mut out = vec![];
@@ -86,6 +88,27 @@ pub fn run(case: &Value) -> Value {
                         o
                     }
                     "set_value" => res(&cur.set_value(path, st["value"].clone())),
+                    // the same document in both formats, applied to the same receiver
+                    "pair" => {
+                        let toml = st["toml"].as_str().unwrap_or("");
+                        let pv = |t: &str, f: &str| match verif_parse_to_value(t, f) {
+                            Ok(v) => json!({"r": "ok", "v": v}),
+                            Err(e) => json!({"r": "err", "kind": err_class(&e)}),
+                        };
+                        let rj = cur.with_json(text);
+                        let rt = cur.with_toml(toml);
+                        let side = |r: &c2pa::Result<Settings>| match r {
+                            Ok(n) => json!({"res": "ok", "after": sval(n)}),
+                            Err(e) => json!({"res": "err", "kind": err_class(e)}),
+                        };
+                        let mut o = json!({"res": if rj.is_ok() { "ok" } else { "err" }, "json": side(&rj), "toml": side(&rt),
+                                           "pj": pv(text, "json"), "pt": pv(toml, "toml")});
+                        o["receiver_untouched"] = json!(sval(&cur) == before);
+                        if let Ok(n) = rj {
+                            cur = n;
+                        }
+                        o
+                    }
                     _ => json!({"res": "bad-step"}),
                 };
                 if k == "with_value" || k == "set_value" {
